@@ -10,7 +10,7 @@ import (
 
 // ---------- values ----------
 
-var asciiAlpha = []string{"a", "b", "c", "x", "y", "z", "A", "Q", "Z", "0", "1", "7", " ", " ", "-", "_", "."}
+var asciiAlpha = []string{"a", "b", "c", "x", "y", "z", "A", "Q", "Z", "0", "1", "7", " ", " ", "-", "_", ".", "a", "b", "x", "\x7f"}
 var latin1 = []string{"é", "ß", "ü", "ø", "Ñ", "ÿ", "¡"}
 var wide = []string{"€", "漢", "字", "😀", "Ω", "ž"}
 
@@ -210,9 +210,12 @@ var jsScripts = []struct {
 // leaf generates a declaration that yields a scalar, evaluated at a node whose field xpaths are fs.
 func (g *declGen) leaf(fs []string, intField string) D {
 	pick := func() string { return fs[g.t.Intn("decl.field", len(fs))] }
-	w := []int{8, 3, 2, 2, 3, 2, 2, 1, 3, 2, 2, 0}
+	w := []int{8, 3, 2, 2, 3, 2, 2, 1, 3, 2, 2, 0, 2}
 	if g.o.Probe {
 		w[11] = 6
+	}
+	if intField == "" {
+		w[12] = 0
 	}
 	if g.o.NoJS {
 		w[8], w[9] = 0, 0
@@ -271,6 +274,15 @@ func (g *declGen) leaf(fs []string, intField string) D {
 		return cf("javascript_with_context", D{"const": src})
 	case 11:
 		return cf("verif_probe", D{"xpath": pick()})
+	case 12:
+		// a date-time function that looks a time zone up in the process-wide location cache; some
+		// names are spelt in a case the zone database does not know
+		tz := g.t.Pick("decl.tz", "", "UTC", "America/New_York", "america/new_york", "Asia/Tokyo", "ASIA/TOKYO", "Europe/Berlin")
+		d := cf("epochToDateTimeRFC3339", D{"xpath": intField}, D{"const": g.t.Pick("decl.epochunit", "SECOND", "MILLISECOND")})
+		if tz != "" {
+			d["custom_func"].(D)["args"] = append(d["custom_func"].(D)["args"].([]interface{}), D{"const": tz})
+		}
+		return d
 	default:
 		return D{"xpath": g.m.Ctx[g.t.Intn("decl.ctx", len(g.m.Ctx))]}
 	}
@@ -340,9 +352,17 @@ func (g *declGen) object(fs []string, intField string, item *ItemModel) D {
 		case 4: // xpath_dynamic
 			f := fs[g.t.Intn("decl.field", len(fs))]
 			var dyn D
-			if g.t.Bool("decl.dyn.concat") {
+			switch k := g.t.Weighted("decl.dyn.kind", 2, 2, 2); {
+			case k == 0:
 				dyn = cf("concat", D{"const": "./"}, D{"const": f})
-			} else {
+			case k == 2 && !g.o.NoJS && intField != "" && g.depth == 1:
+				// an xpath computed from the record's own content, with constant arguments only:
+				// it differs from record to record although nothing in its declaration is an xpath
+				g.usesJS = true
+				f2 := fs[g.t.Intn("decl.field", len(fs))]
+				src := "(parseInt(JSON.parse(_node)['" + intField + "']) % 2 == 0) ? '" + f + "' : '" + f2 + "'"
+				dyn = cf("javascript_with_context", D{"const": src})
+			default:
 				dyn = D{"const": f}
 			}
 			obj[key] = D{"xpath_dynamic": dyn}
@@ -463,4 +483,25 @@ func finish(w *World, enc string, withBOM bool) {
 		w.SetTag("bom", "1")
 	}
 	w.Assemble()
+}
+
+// MaybeScalarOutput occasionally replaces FINAL_OUTPUT by a declaration that yields a plain
+// string (a field, or the whole record's text), keeping its target xpath.
+func MaybeScalarOutput(t *tape.Tape, decls D, m Model, o GenOpts) bool {
+	if o.OwnDataOnly || o.Family != "" || !t.Chance("gen.scalar-output", 1, 12) {
+		return false
+	}
+	fo := decls["FINAL_OUTPUT"].(D)
+	repl := D{}
+	if x, ok := fo["xpath"]; ok {
+		repl["xpath"] = x
+	}
+	switch t.Weighted("gen.scalar-output.kind", 2, 1) {
+	case 0:
+		repl["custom_func"] = D{"name": "concat", "args": []interface{}{D{"xpath": m.Fields[0]}, D{"const": "|"}, D{"xpath": m.Fields[len(m.Fields)-1]}}}
+	default:
+		repl["no_trim"] = true // field: the record's own text
+	}
+	decls["FINAL_OUTPUT"] = repl
+	return true
 }
